@@ -12,13 +12,16 @@ import (
 
 	appsv1 "k8s.io/api/apps/v1"
 	corev1 "k8s.io/api/core/v1"
+	k8serr "k8s.io/apimachinery/pkg/api/errors"
 	metav1 "k8s.io/apimachinery/pkg/apis/meta/v1"
 	"k8s.io/apimachinery/pkg/runtime"
+	"k8s.io/apimachinery/pkg/runtime/schema"
 	"k8s.io/client-go/kubernetes/fake"
 	k8stesting "k8s.io/client-go/testing"
 
 	"kvassverif/core"
 	"kvassverif/cycle"
+	"kvassverif/sidecarsim"
 
 	kshard "tkestack.io/kvass/pkg/shard/kubernetes"
 )
@@ -37,7 +40,7 @@ func i32(v int32) *int32 { return &v }
 
 func mkSts(name string, replicas int32, templates int, updated, ready int32) *appsv1.StatefulSet {
 	s := &appsv1.StatefulSet{ObjectMeta: metav1.ObjectMeta{Name: name, Namespace: ns, Labels: map[string]string{"app.kubernetes.io/name": "prometheus"}},
-		Spec: appsv1.StatefulSetSpec{Replicas: i32(replicas), Selector: &metav1.LabelSelector{MatchLabels: map[string]string{"sts": name}}},
+		Spec:   appsv1.StatefulSetSpec{Replicas: i32(replicas), Selector: &metav1.LabelSelector{MatchLabels: map[string]string{"sts": name}}},
 		Status: appsv1.StatefulSetStatus{Replicas: replicas, UpdatedReplicas: updated, ReadyReplicas: ready}}
 	for t := 0; t < templates; t++ {
 		s.Spec.VolumeClaimTemplates = append(s.Spec.VolumeClaimTemplates, corev1.PersistentVolumeClaim{ObjectMeta: metav1.ObjectMeta{Name: fmt.Sprintf("data%d", t)}})
@@ -61,6 +64,11 @@ func newWorld(objs []runtime.Object) *world {
 			return true, nil, inj
 		case w.failVerb == "update-sts" && key == "update-statefulsets":
 			return true, nil, inj
+		case w.failVerb == "update-sts-conflict" && key == "update-statefulsets":
+			// another writer got in between the manager's read and its write (HTTP 409)
+			return true, nil, k8serr.NewConflict(schema.GroupResource{Group: "apps", Resource: "statefulsets"}, "prom", fmt.Errorf("the object has been modified; please apply your changes to the latest version and try again"))
+		case w.failVerb == "update-sts-timeout" && key == "update-statefulsets":
+			return true, nil, k8serr.NewServerTimeout(schema.GroupResource{Group: "apps", Resource: "statefulsets"}, "update", 1)
 		case w.failVerb == "list-pods" && key == "list-pods":
 			return true, nil, inj
 		case w.failVerb == "list-sts" && key == "list-statefulsets":
@@ -256,7 +264,7 @@ func c18Run(tp *core.Tape, e *core.Env) {
 	for i := 0; i < nC && !e.Failed(); i++ {
 		old := int32(tp.Choose("old", 9))
 		nw := int32(tp.Choose("new", 9))
-		fail := core.Pick(tp, "fail", "", "", "get-sts", "update-sts", "delete-pvc")
+		fail := core.Pick(tp, "fail", "", "", "get-sts", "update-sts", "delete-pvc", "update-sts-conflict", "update-sts-timeout")
 		ford := -1
 		if fail == "delete-pvc" && tp.Bool("fail_one_ordinal", 1, 2) {
 			ford = tp.Choose("fail_ord", 9)
@@ -272,6 +280,11 @@ func c18Run(tp *core.Tape, e *core.Env) {
 	}
 	if !e.Failed() {
 		replicasCase(tp, e)
+	}
+	if !e.Failed() && tp.Bool("replicas_history", 1, 2) {
+		if problem := sidecarsim.InBubble(e.T, func() { replicasHistoryCase(tp, e) }); problem != "" {
+			e.Undecided("k8s engine: %s", problem)
+		}
 	}
 	_ = start
 }
@@ -384,6 +397,57 @@ func isIdentity(p []int) bool {
 		}
 	}
 	return true
+}
+
+// replicasHistoryCase: one ReplicasManager over several cycles on the fake clock while the StatefulSet goes
+// through drawn states: whatever came before and however long ago, a rolling update in progress is not
+// coordinated and a fully updated, fully ready set is.
+func replicasHistoryCase(tp *core.Tape, e *core.Env) {
+	name := "prom-hist"
+	w := newWorld([]runtime.Object{mkSts(name, 3, 1, 3, 3)})
+	rm := kshard.NewReplicasManager(w.cli, ns, "app.kubernetes.io/name=prometheus", 8080, true, cycle.Quiet())
+	steps := 3 + tp.Choose("history_steps", 6)
+	var hist []string
+	for i := 0; i < steps; i++ {
+		state := core.Pick(tp, "history_state", "healthy", "rolling", "not-ready", "rolling")
+		updated, ready := int32(3), int32(3)
+		switch state {
+		case "rolling":
+			updated = int32(tp.Choose("history_updated", 3))
+			ready = int32(1 + tp.Choose("history_ready", 3))
+			e.Fault("sts_rolling_update")
+		case "not-ready":
+			ready = int32(tp.Choose("history_ready", 3))
+		}
+		s, err := w.cli.AppsV1().StatefulSets(ns).Get(context.TODO(), name, metav1.GetOptions{})
+		if err != nil {
+			e.Undecided("fake clientset: %v", err)
+			return
+		}
+		s.Status.UpdatedReplicas, s.Status.ReadyReplicas = updated, ready
+		if _, err := w.cli.AppsV1().StatefulSets(ns).Update(context.TODO(), s, metav1.UpdateOptions{}); err != nil {
+			e.Undecided("fake clientset: %v", err)
+			return
+		}
+		d := core.Pick(tp, "history_advance", 10*time.Second, 10*time.Second, time.Minute, 150*time.Second, 5*time.Minute)
+		time.Sleep(d)
+		hist = append(hist, fmt.Sprintf("+%s %s(updated=%d,ready=%d)", d, state, updated, ready))
+		ms, err := rm.Replicas()
+		if err != nil {
+			e.Violate("replicas-error", "", "Replicas() failed: %v", err)
+			return
+		}
+		switch {
+		case state == "rolling" && len(ms) != 0:
+			e.Violate("rolling-sts-coordinated", "history", "after %v the StatefulSet has a rolling update in progress (updated %d of 3) but is coordinated", hist, updated)
+			return
+		case state == "healthy" && len(ms) != 1:
+			e.Violate("healthy-sts-skipped", "history", "after %v the StatefulSet is fully updated and ready but is not coordinated", hist)
+			return
+		}
+	}
+	e.Probe("replicas_history_checked")
+	e.Key("replicas-history", fmt.Sprintf("steps=%d", steps/3))
 }
 
 // replicasCase: a StatefulSet in rolling update is not coordinated; healthy ones are.
